@@ -60,23 +60,29 @@ Proof.
 Qed.
 
 (* ---- a chain of complete headers, then the end of the capture ---- *)
-Lemma inv0 : Inv empty_msg empty_msg [].
-Proof. split; [reflexivity|split; [reflexivity|apply others_eq_refl]]. Qed.
+(* the message the dissection starts from: the empty one (ParsePacket on its own), or the one that already carries the
+   fields of an sFlow sample; it has no layers and no segment list yet *)
+Definition base_ok (m0 : msg) : Prop :=
+  mgetLI m0 cLayerStack = [] /\ mgetLI m0 cLayerSize = [] /\ mgetLB m0 cRhAddrs = [].
+Lemma base_empty : base_ok empty_msg.
+Proof. repeat split. Qed.
+Lemma inv_base m0 : base_ok m0 -> Inv m0 m0 [].
+Proof. intros (H1 & H2 & _). split; [exact H1|split; [exact H2|apply others_eq_refl]]. Qed.
 
-Lemma cut_stop layers cut e b ls :
+Lemma cut_stop m0 layers cut e b ls : base_ok m0 ->
   chained PEthernet layers -> contracts layers cut ->
-  run_layers false empty_msg [] layers = Some (e, b, ls) ->
+  run_layers false m0 [] layers = Some (e, b, ls) ->
   (last_next PEthernet layers = PNone \/ (length cut < min_len (last_next PEthernet layers))%nat) ->
-  exists m, parse_packet empty_pcfg empty_msg (concat (map lhdr layers) ++ cut) = Ok m /\ Inv m b ls.
+  exists m, parse_packet empty_pcfg m0 (concat (map lhdr layers) ++ cut) = Ok m /\ Inv m b ls.
 Proof.
-  intros Hch Hct Hrun Hend.
+  intros Hbase Hch Hct Hrun Hend.
   pose proof (contracts_len _ _ Hct) as Hlen.
   set (data := concat (map lhdr layers) ++ cut).
   unfold parse_packet. fold data.
   assert (Hd : (length layers <= length data)%nat) by (unfold data; rewrite app_length; lia).
   replace (length data + 3)%nat with (length layers + (S (S (S (length data - length layers)))))%nat by lia.
-  destruct (chain layers (S (S (S (length data - length layers)))) data 0 false empty_msg empty_msg [] cut PEthernet e b ls)
-    as (m' & E & Hinv'); try assumption; [reflexivity|lia|apply inv0|].
+  destruct (chain layers (S (S (S (length data - length layers)))) data 0 false m0 m0 [] cut PEthernet e b ls)
+    as (m' & E & Hinv'); try assumption; [reflexivity|lia|apply inv_base; exact Hbase|].
   exists m'. split; [|exact Hinv']. rewrite E.
   destruct Hend as [->|Hshort]; [reflexivity|].
   set (p := last_next PEthernet layers) in *.
@@ -92,23 +98,23 @@ Proof.
 Qed.
 
 (* ---- a chain of complete headers, then one more header of which the capture holds enough for its parser ---- *)
-Lemma cut_step layers cut e b ls asg size nx needs :
+Lemma cut_step m0 layers cut e b ls asg size nx needs : base_ok m0 ->
   chained PEthernet layers -> contracts layers cut ->
-  run_layers false empty_msg [] layers = Some (e, b, ls) ->
+  run_layers false m0 [] layers = Some (e, b, ls) ->
   step_contract (last_next PEthernet layers) cut asg size nx needs ->
   (needs = true -> e = false -> mgetLB b cRhAddrs = []) ->
   (nx = PNone \/ lenN cut < size) ->
-  exists m, parse_packet empty_pcfg empty_msg (concat (map lhdr layers) ++ cut) = Ok m /\
+  exists m, parse_packet empty_pcfg m0 (concat (map lhdr layers) ++ cut) = Ok m /\
             Inv m (if e then b else assign asg b) (ls ++ [(last_next PEthernet layers, size)]).
 Proof.
-  intros Hch Hct Hrun Hstep Hneeds Hend.
+  intros Hbase Hch Hct Hrun Hstep Hneeds Hend.
   pose proof (contracts_len _ _ Hct) as Hlen.
   set (data := concat (map lhdr layers) ++ cut).
   unfold parse_packet. fold data.
   assert (Hd : (length layers <= length data)%nat) by (unfold data; rewrite app_length; lia).
   replace (length data + 3)%nat with (length layers + (S (S (S (length data - length layers)))))%nat by lia.
-  destruct (chain layers (S (S (S (length data - length layers)))) data 0 false empty_msg empty_msg [] cut PEthernet e b ls)
-    as (m' & E & Hinv'); try assumption; [reflexivity|lia|apply inv0|].
+  destruct (chain layers (S (S (S (length data - length layers)))) data 0 false m0 m0 [] cut PEthernet e b ls)
+    as (m' & E & Hinv'); try assumption; [reflexivity|lia|apply inv_base; exact Hbase|].
   rewrite E.
   destruct (loop_step_gen (S (S (length data - length layers))) data (0 + lenN (concat (map lhdr layers))) e m' b ls
               (last_next PEthernet layers) cut asg size nx needs) as (m2 & E2 & Hinv2); try assumption.
@@ -465,17 +471,45 @@ Definition vprefix (a r : pval) : Prop :=
   | VLB x, VLB y => exists n, x = firstn n y
   | _, _ => False
   end.
-Definition col_ok (a r : option pval) : Prop :=
-  a = r \/ a = None \/ exists va vr, a = Some va /\ r = Some vr /\ vprefix va vr.
-Definition cols_ok (m : msg) (f : frame) : Prop :=
+Definition col_ok (base a r : option pval) : Prop :=
+  a = r \/ a = base \/ exists va vr, a = Some va /\ r = Some vr /\ vprefix va vr.
+(* m0: the message the dissection started from; framed m0 f: what the complete frame makes of it *)
+Definition cols_ok (m0 m : msg) (f : frame) : Prop :=
   forall k, k <> cEtype -> k <> cVlanId -> k <> cLayerStack -> k <> cLayerSize ->
-    col_ok (alookup (cols m) k) (alookup (cols (ref_frame f)) k).
+    col_ok (alookup (cols m0) k) (alookup (cols m) k) (alookup (cols (framed m0 f)) k).
 
-Lemma stop_columns f j e b ls m : wf_frame f = true ->
-  run_layers false empty_msg [] (firstn j (frame_chain f)) = Some (e, b, ls) -> Inv m b ls -> cols_ok m f.
+(* frame_cut_columns (FrameCutP.v) from any base message: a prefix of the frame's headers leaves every column at the
+   complete frame's value or at the base message's *)
+Lemma frame_cut_columns_on m0 f j e b ls : wf_frame f = true -> base_ok m0 ->
+  run_layers false m0 [] (firstn j (frame_chain f)) = Some (e, b, ls) ->
+  forall k, k <> cEtype -> k <> cVlanId -> k <> cLayerStack -> k <> cLayerSize ->
+    alookup (cols b) k = alookup (cols (framed m0 f)) k \/ alookup (cols b) k = alookup (cols m0) k.
 Proof.
-  intros Hwf Hrun (_ & _ & [Ho _]) k K1 K2 K3 K4. rewrite Ho by assumption.
-  destruct (frame_cut_columns f j e b ls Hwf Hrun k K1 K2 K3 K4) as [H|H]; [left; exact H|right; left; exact H].
+  intros Hwf (_ & _ & Hrh) Hrun k K1 K2 K3 K4.
+  destruct (frame_run_on m0 f Hwf Hrh) as (e0 & b0 & R0 & O0).
+  pose proof (frame_applied_nodup f Hwf) as Hnd.
+  rewrite <- (firstn_skipn j (frame_chain f)) in R0, Hnd.
+  rewrite applied_app, fkeys_app in Hnd. apply nodup_app in Hnd. destruct Hnd as (_ & _ & Hd).
+  apply run_layers_applied in Hrun. destruct Hrun as [Hb _].
+  apply run_layers_applied in R0. destruct R0 as [Hb0 _]. rewrite applied_app, assign_app, <- Hb in Hb0.
+  set (P := applied false (firstn j (frame_chain f))) in *.
+  set (S := applied (eafter false (firstn j (frame_chain f))) (skipn j (frame_chain f))) in *.
+  assert (Hok : okk k = true).
+  { unfold okk. destruct (N.eqb_spec k cEtype); [contradiction|]. destruct (N.eqb_spec k cVlanId); [contradiction|]. reflexivity. }
+  assert (Href : alookup (cols b0) k = alookup (cols (framed m0 f)) k).
+  { destruct O0 as [O0 _]. rewrite O0 by assumption. unfold framed. rewrite !alookup_mset.
+    destruct (N.eqb_spec cLayerSize k); [congruence|]. destruct (N.eqb_spec cLayerStack k); [congruence|]. reflexivity. }
+  destruct (in_dec N.eq_dec k (map fst S)) as [Hin|Hnin].
+  - right. rewrite Hb. rewrite assign_notin; [reflexivity|]. intros Hp.
+    apply (Hd k); apply fkeys_in; split; assumption.
+  - left. rewrite <- Href, Hb0. rewrite assign_notin by exact Hnin. reflexivity.
+Qed.
+
+Lemma stop_columns m0 f j e b ls m : wf_frame f = true -> base_ok m0 ->
+  run_layers false m0 [] (firstn j (frame_chain f)) = Some (e, b, ls) -> Inv m b ls -> cols_ok m0 m f.
+Proof.
+  intros Hwf Hbase Hrun (_ & _ & [Ho _]) k K1 K2 K3 K4. rewrite Ho by assumption.
+  destruct (frame_cut_columns_on m0 f j e b ls Hwf Hbase Hrun k K1 K2 K3 K4) as [H|H]; [left; exact H|right; left; exact H].
 Qed.
 
 Lemma nth_split {A} (l : list A) j d : (j < length l)%nat -> l = firstn j l ++ nth j l d :: skipn (S j) l.
@@ -503,13 +537,13 @@ Qed.
 Definition sub_asg (A L : list (N * pval)) : Prop :=
   NoDup (fkeys A) /\ forall k v, In (k, v) A -> okk k = true /\ exists v', In (k, v') L /\ (v = v' \/ vprefix v v').
 
-Lemma step_columns f j A e b ls m : wf_frame f = true -> (j < length (frame_chain f))%nat ->
-  run_layers false empty_msg [] (firstn j (frame_chain f)) = Some (e, b, ls) ->
+Lemma step_columns m0 f j A e b ls m : wf_frame f = true -> base_ok m0 -> (j < length (frame_chain f))%nat ->
+  run_layers false m0 [] (firstn j (frame_chain f)) = Some (e, b, ls) ->
   sub_asg A (lasg (nth j (frame_chain f) dummy_layer)) ->
-  others_eq m (if e then b else assign A b) -> cols_ok m f.
+  others_eq m (if e then b else assign A b) -> cols_ok m0 m f.
 Proof.
-  intros Hwf Hj Hrun [HndA HA] [Ho _] k K1 K2 K3 K4. rewrite Ho by assumption.
-  pose proof (frame_cut_columns f j e b ls Hwf Hrun k K1 K2 K3 K4) as Hb.
+  intros Hwf Hbase Hj Hrun [HndA HA] [Ho _] k K1 K2 K3 K4. rewrite Ho by assumption.
+  pose proof (frame_cut_columns_on m0 f j e b ls Hwf Hbase Hrun k K1 K2 K3 K4) as Hb.
   destruct e; [destruct Hb as [H|H]; [left; exact H|right; left; exact H]|].
   assert (Hok : okk k = true).
   { unfold okk. destruct (N.eqb_spec k cEtype); [contradiction|]. destruct (N.eqb_spec k cVlanId); [contradiction|]. reflexivity. }
@@ -519,7 +553,7 @@ Proof.
   destruct (HA k v Hin) as (_ & v' & Hin' & Hrel).
   rewrite (assign_in_once A b k v Hin HndA Hok).
   (* the complete frame *)
-  destruct (frame_run f Hwf) as (e0 & b0 & R0 & O0).
+  destruct (frame_run_on m0 f Hwf (proj2 (proj2 Hbase))) as (e0 & b0 & R0 & O0).
   pose proof (frame_applied_nodup f Hwf) as Hnd.
   set (lj := nth j (frame_chain f) dummy_layer) in *.
   rewrite (nth_split (frame_chain f) j dummy_layer Hj) in R0, Hnd. fold lj in R0, Hnd.
@@ -529,8 +563,8 @@ Proof.
   rewrite !assign_app in Hb0. rewrite <- Hbb in Hb0.
   rewrite !fkeys_app in Hnd. apply nodup_app in Hnd. destruct Hnd as (_ & Hnd & _).
   apply nodup_app in Hnd. destruct Hnd as (HndL & _ & Hd).
-  assert (Href : alookup (cols b0) k = alookup (cols (ref_frame f)) k).
-  { destruct O0 as [O0 _]. rewrite O0 by assumption. rewrite ref_frame_pre, !alookup_mset.
+  assert (Href : alookup (cols b0) k = alookup (cols (framed m0 f)) k).
+  { destruct O0 as [O0 _]. rewrite O0 by assumption. unfold framed. rewrite !alookup_mset.
     destruct (N.eqb_spec cLayerSize k); [congruence|]. destruct (N.eqb_spec cLayerStack k); [congruence|]. reflexivity. }
   assert (Hfull : alookup (cols b0) k = Some v').
   { rewrite Hb0. rewrite assign_notin.
@@ -548,8 +582,8 @@ Definition lay (f : frame) (j : nat) : layer := nth j (frame_chain f) dummy_laye
 Definition codes (f : frame) : list N := map (fun x => layer_code (fst x)) (frame_layers f).
 Definition layers_ok (m : msg) (f : frame) : Prop :=
   exists k, mgetLI m cLayerStack = firstn k (codes f) /\ length (mgetLI m cLayerSize) = length (mgetLI m cLayerStack).
-Definition cut_ok (f : frame) (data : bytes) : Prop :=
-  exists m, parse_packet empty_pcfg empty_msg data = Ok m /\ cols_ok m f /\ layers_ok m f.
+Definition cut_ok (m0 : msg) (f : frame) (data : bytes) : Prop :=
+  exists m, parse_packet empty_pcfg m0 data = Ok m /\ cols_ok m0 m f /\ layers_ok m f.
 
 Definition lsig (l : layer) : parser * N := (lp l, lenN (lhdr l)).
 Lemma run_layers_ls q : forall e b ls e' b' ls',
@@ -569,16 +603,16 @@ Proof.
   change (firstn (S (S j)) (x :: r)) with (x :: firstn (S j) r). cbn [firstn nth app]. f_equal. apply IH. cbn [length] in H. lia.
 Qed.
 
-Lemma stop_layers f j e b ls m : wf_frame f = true ->
-  run_layers false empty_msg [] (firstn j (frame_chain f)) = Some (e, b, ls) -> Inv m b ls -> layers_ok m f.
+Lemma stop_layers m0 f j e b ls m : wf_frame f = true ->
+  run_layers false m0 [] (firstn j (frame_chain f)) = Some (e, b, ls) -> Inv m b ls -> layers_ok m f.
 Proof.
   intros Hwf Hrun (H1 & H2 & _). apply run_layers_ls in Hrun. cbn [app] in Hrun. subst ls.
   exists j. split; [|rewrite H1, H2, !map_length; reflexivity].
   rewrite H1. unfold codes. rewrite (frame_layers_sig f Hwf), firstn_map, firstn_map. reflexivity.
 Qed.
 
-Lemma step_layers f j e b b' ls m size : wf_frame f = true -> (j < length (frame_chain f))%nat ->
-  run_layers false empty_msg [] (firstn j (frame_chain f)) = Some (e, b, ls) ->
+Lemma step_layers m0 f j e b b' ls m size : wf_frame f = true -> (j < length (frame_chain f))%nat ->
+  run_layers false m0 [] (firstn j (frame_chain f)) = Some (e, b, ls) ->
   Inv m b' (ls ++ [(lp (lay f j), size)]) -> layers_ok m f.
 Proof.
   intros Hwf Hj Hrun (H1 & H2 & _). apply run_layers_ls in Hrun. cbn [app] in Hrun. subst ls.
@@ -589,18 +623,18 @@ Proof.
   f_equal. symmetry. exact (map_nth (fun x => layer_code (fst (lsig x))) (frame_chain f) dummy_layer j).
 Qed.
 
-Lemma frame_prefix_run f j : wf_frame f = true ->
-  exists e b ls, run_layers false empty_msg [] (firstn j (frame_chain f)) = Some (e, b, ls).
+Lemma frame_prefix_run m0 f j : wf_frame f = true -> base_ok m0 ->
+  exists e b ls, run_layers false m0 [] (firstn j (frame_chain f)) = Some (e, b, ls).
 Proof.
-  intros Hwf. destruct (frame_run f Hwf) as (e0 & b0 & R0 & _).
+  intros Hwf (_ & _ & Hrh). destruct (frame_run_on m0 f Hwf Hrh) as (e0 & b0 & R0 & _).
   destruct (run_layers_firstn _ j _ _ _ _ R0) as ([[e b] ls] & R). exists e, b, ls. exact R.
 Qed.
 
-Lemma frame_needs f j e b ls : wf_frame f = true -> (j < length (frame_chain f))%nat ->
-  run_layers false empty_msg [] (firstn j (frame_chain f)) = Some (e, b, ls) ->
+Lemma frame_needs m0 f j e b ls : wf_frame f = true -> base_ok m0 -> (j < length (frame_chain f))%nat ->
+  run_layers false m0 [] (firstn j (frame_chain f)) = Some (e, b, ls) ->
   lneeds (lay f j) = true -> e = false -> mgetLB b cRhAddrs = [].
 Proof.
-  intros Hwf Hj Hrun Hn He. destruct (frame_run f Hwf) as (e0 & b0 & R0 & _).
+  intros Hwf (_ & _ & Hrh) Hj Hrun Hn He. destruct (frame_run_on m0 f Hwf Hrh) as (e0 & b0 & R0 & _).
   rewrite (nth_split (frame_chain f) j dummy_layer Hj) in R0. rewrite run_layers_app, Hrun in R0.
   cbn [run_layers] in R0. fold (lay f j) in R0. rewrite Hn, He in R0. cbn [andb negb] in R0.
   destruct (mgetLB b cRhAddrs); [reflexivity|discriminate].
@@ -650,42 +684,47 @@ Proof.
 Qed.
 
 (* ---- the three ways a capture can end ---- *)
-Lemma case_short f j c : wf_frame f = true -> (j < length (frame_chain f))%nat ->
+Lemma case_short m0 f j c : wf_frame f = true -> base_ok m0 -> (j < length (frame_chain f))%nat ->
   (1 <= c < min_len (lp (lay f j)))%nat -> (c <= length (lhdr (lay f j)))%nat ->
-  cut_ok f (hdrs f j ++ firstn c (lhdr (lay f j))).
+  cut_ok m0 f (hdrs f j ++ firstn c (lhdr (lay f j))).
 Proof.
-  intros Hwf Hj Hc Hl. rewrite <- frame_cut_bytes by assumption.
-  destruct (parse_prefix f j c Hwf Hj Hc) as (m & e & b & ls & Hrun & Hp & Hinv).
-  exists m. split; [exact Hp|]. split; [eapply stop_columns; eassumption|eapply stop_layers; eassumption].
+  intros Hwf Hbase Hj Hc Hl.
+  destruct (frame_prefix_run m0 f j Hwf Hbase) as (e & b & ls & Hrun).
+  destruct (frame_chained f Hwf) as [Hch _].
+  assert (Hne : lhdr (lay f j) <> []) by (intros E; rewrite E in Hl; cbn in Hl; lia).
+  pose proof (frame_prefix_contracts f j c Hwf Hj ltac:(lia) Hne) as Hct.
+  destruct (cut_stop m0 (firstn j (frame_chain f)) (firstn c (lhdr (lay f j))) e b ls Hbase (chained_firstn _ j _ Hch) Hct Hrun) as (m & Hp & Hinv).
+  - right. rewrite (last_next_firstn _ j _ Hch Hj). fold (lay f j). rewrite firstn_length. lia.
+  - exists m. split; [exact Hp|]. split; [eapply stop_columns; eassumption|eapply stop_layers; eassumption].
 Qed.
 
-Lemma case_full f j : wf_frame f = true -> (j < length (frame_chain f))%nat ->
-  lp (lay f j) <> PMPLS -> next_ok (lnext (lay f j)) -> forall x, (x = [] \/ lnext (lay f j) = PNone) -> cut_ok f (hdrs f (S j) ++ x).
+Lemma case_full m0 f j : wf_frame f = true -> base_ok m0 -> (j < length (frame_chain f))%nat ->
+  lp (lay f j) <> PMPLS -> next_ok (lnext (lay f j)) -> forall x, (x = [] \/ lnext (lay f j) = PNone) -> cut_ok m0 f (hdrs f (S j) ++ x).
 Proof.
-  intros Hwf Hj Hm Hn x Hx.
-  destruct (frame_prefix_run f (S j) Hwf) as (e & b & ls & Hrun).
+  intros Hwf Hbase Hj Hm Hn x Hx.
+  destruct (frame_prefix_run m0 f (S j) Hwf Hbase) as (e & b & ls & Hrun).
   destruct (frame_chained f Hwf) as [Hch _].
   assert (Hct : contracts (firstn (S j) (frame_chain f)) x).
   { eapply contracts_firstn_any; [apply frame_contracts; exact Hwf|apply frame_robust; exact Hwf|lia|].
     intros l _ Hl. cbn [Nat.sub] in Hl. rewrite Nat.sub_0_r in Hl.
     apply (nth_error_nth _ _ dummy_layer) in Hl. fold (lay f j) in Hl. subst l. exact Hm. }
-  destruct (cut_stop (firstn (S j) (frame_chain f)) x e b ls (chained_firstn _ (S j) _ Hch) Hct Hrun) as (m & Hp & Hinv).
+  destruct (cut_stop m0 (firstn (S j) (frame_chain f)) x e b ls Hbase (chained_firstn _ (S j) _ Hch) Hct Hrun) as (m & Hp & Hinv).
   - rewrite (last_next_firstn_S _ j _ Hch Hj). fold (lay f j).
     destruct Hx as [->|Hx]; [|left; exact Hx]. destruct Hn as [Hn|Hn]; [left; exact Hn|right; cbn [length]; exact Hn].
   - exists m. split; [exact Hp|]. split; [eapply stop_columns; eassumption|eapply stop_layers; eassumption].
 Qed.
 
-Lemma case_step f j cut A size nx needs : wf_frame f = true -> (j < length (frame_chain f))%nat ->
+Lemma case_step m0 f j cut A size nx needs : wf_frame f = true -> base_ok m0 -> (j < length (frame_chain f))%nat ->
   contracts (firstn j (frame_chain f)) cut ->
   step_contract (lp (lay f j)) cut A size nx needs -> (needs = true -> lneeds (lay f j) = true) ->
   (nx = PNone \/ lenN cut < size) -> sub_asg A (lasg (lay f j)) ->
-  cut_ok f (hdrs f j ++ cut).
+  cut_ok m0 f (hdrs f j ++ cut).
 Proof.
-  intros Hwf Hj Hct Hstep Hnd Hend Hsub.
-  destruct (frame_prefix_run f j Hwf) as (e & b & ls & Hrun).
+  intros Hwf Hbase Hj Hct Hstep Hnd Hend Hsub.
+  destruct (frame_prefix_run m0 f j Hwf Hbase) as (e & b & ls & Hrun).
   destruct (frame_chained f Hwf) as [Hch _].
   pose proof (last_next_firstn _ j _ Hch Hj) as Hp. fold (lay f j) in Hp.
-  destruct (cut_step (firstn j (frame_chain f)) cut e b ls A size nx needs (chained_firstn _ j _ Hch) Hct Hrun) as (m & Hpp & Hinv).
+  destruct (cut_step m0 (firstn j (frame_chain f)) cut e b ls A size nx needs Hbase (chained_firstn _ j _ Hch) Hct Hrun) as (m & Hpp & Hinv).
   - rewrite Hp. exact Hstep.
   - intros H1 H2. eapply frame_needs; eauto.
   - exact Hend.
@@ -706,19 +745,19 @@ Proof.
 Qed.
 
 (* ---- the header the capture ends in is complete and is not an MPLS stack ---- *)
-Lemma kind_full f j : wf_frame f = true -> (j < length (frame_chain f))%nat ->
-  lp (lay f j) <> PMPLS -> next_ok (lnext (lay f j)) -> cut_ok f (hdrs f j ++ lhdr (lay f j)).
+Lemma kind_full m0 f j : wf_frame f = true -> base_ok m0 -> (j < length (frame_chain f))%nat ->
+  lp (lay f j) <> PMPLS -> next_ok (lnext (lay f j)) -> cut_ok m0 f (hdrs f j ++ lhdr (lay f j)).
 Proof.
-  intros Hwf Hj Hm Hn. rewrite <- hdrs_S by exact Hj. rewrite <- (app_nil_r (hdrs f (S j))).
+  intros Hwf Hbase Hj Hm Hn. rewrite <- hdrs_S by exact Hj. rewrite <- (app_nil_r (hdrs f (S j))).
   apply case_full; try assumption. left; reflexivity.
 Qed.
 
 (* ---- MPLS ---- *)
-Lemma kind_mpls f j c ls e : wf_frame f = true -> (j < length (frame_chain f))%nat ->
+Lemma kind_mpls m0 f j c ls e : wf_frame f = true -> base_ok m0 -> (j < length (frame_chain f))%nat ->
   lay f j = mpls_layer ls e -> ls <> [] -> forallb wf_label ls = true -> lenN ls <= 1000 ->
-  (1 <= c <= length (enc_mpls ls))%nat -> cut_ok f (hdrs f j ++ firstn c (enc_mpls ls)).
+  (1 <= c <= length (enc_mpls ls))%nat -> cut_ok m0 f (hdrs f j ++ firstn c (enc_mpls ls)).
 Proof.
-  intros Hwf Hj El Hne Hwl Hlen Hc.
+  intros Hwf Hbase Hj El Hne Hwl Hlen Hc.
   assert (Hh : lhdr (lay f j) = enc_mpls ls) by (rewrite El; reflexivity).
   assert (Hlp : lp (lay f j) = PMPLS) by (rewrite El; reflexivity).
   assert (Hlen4 : length (enc_mpls ls) = (4 * length ls)%nat) by (rewrite enc_mpls_bytes; apply mpls_bytes_len).
@@ -730,7 +769,7 @@ Proof.
   destruct (Nat.eq_dec c (4 * length ls)) as [Hfull|Hpart].
   - (* the whole stack, nothing behind it *)
     rewrite firstn_full in * by lia.
-    apply (case_step f j (enc_mpls ls) [(cMplsLabel, VLI (map fst ls)); (cMplsTtl, VLI (map snd ls))] (4 * lenN ls) PNone false);
+    apply (case_step m0 f j (enc_mpls ls) [(cMplsLabel, VLI (map fst ls)); (cMplsTtl, VLI (map snd ls))] (4 * lenN ls) PNone false);
       try assumption.
     + rewrite Hlp. split; [keys|]. split; [discriminate|]. split; [lia|]. intros base m _.
       pose proof (mpls_step_nopeek [] base m ls [] Hne Hwl eq_refl) as S0. rewrite app_nil_r in S0. exact S0.
@@ -747,7 +786,7 @@ Proof.
       apply firstn_app_len. }
     rewrite Hcut in *.
     assert (Ht : (length (firstn r (mpls_bytes (skipn k ls))) < 4)%nat) by (rewrite firstn_length; unfold r; lia).
-    apply (case_step f j _ [(cMplsLabel, VLI (map fst (firstn k ls))); (cMplsTtl, VLI (map snd (firstn k ls)))] (4 * N.of_nat k) PNone false);
+    apply (case_step m0 f j _ [(cMplsLabel, VLI (map fst (firstn k ls))); (cMplsTtl, VLI (map snd (firstn k ls)))] (4 * N.of_nat k) PNone false);
       try assumption.
     + rewrite Hlp. split; [keys|]. split; [discriminate|]. split; [unfold lenN in Hlen; lia|]. intros base m _.
       apply mpls_step_partial; assumption.
@@ -770,11 +809,11 @@ Proof.
   - apply forallb_forall. intros x Hx. apply in_firstn in Hx. rewrite forallb_forall in H. apply H. exact Hx.
 Qed.
 
-Lemma kind_srh f j c next s : wf_frame f = true -> (j < length (frame_chain f))%nat ->
+Lemma kind_srh m0 f j c next s : wf_frame f = true -> base_ok m0 -> (j < length (frame_chain f))%nat ->
   lay f j = srh_layer next s -> wf_srh s = true ->
-  (1 <= c <= length (enc_srh next s))%nat -> cut_ok f (hdrs f j ++ firstn c (enc_srh next s)).
+  (1 <= c <= length (enc_srh next s))%nat -> cut_ok m0 f (hdrs f j ++ firstn c (enc_srh next s)).
 Proof.
-  intros Hwf Hj El Hws Hc. destruct s as [sl segs].
+  intros Hwf Hbase Hj El Hws Hc. destruct s as [sl segs].
   assert (Hh : lhdr (lay f j) = enc_srh next (sl, segs)) by (rewrite El; reflexivity).
   assert (Hlp : lp (lay f j) = PV6Route) by (rewrite El; reflexivity).
   pose proof (srh_len next (sl, segs) Hws) as HlenN. cbn [snd] in HlenN.
@@ -799,7 +838,7 @@ Proof.
       apply firstn_app_len. }
     rewrite Hcut in *.
     assert (Ht : (length (firstn r (concat (skipn k segs))) < 16)%nat) by (rewrite firstn_length; unfold r; lia).
-    apply (case_step f j _ [(cRhSegLeft, VI sl); (cRhAddrs, VLB (firstn k segs))] (8 + 16 * lenN segs) (next_proto next) true);
+    apply (case_step m0 f j _ [(cRhSegLeft, VI sl); (cRhAddrs, VLB (firstn k segs))] (8 + 16 * lenN segs) (next_proto next) true);
       try assumption.
     + rewrite Hlp. split; [keys|]. split; [discriminate|]. split; [lia|]. intros base m Hm.
       destruct base.
@@ -820,12 +859,12 @@ Proof.
 Qed.
 
 (* ---- TCP, ICMP ---- *)
-Lemma kind_tcp f j c sp dp fl ow : wf_frame f = true -> (j < length (frame_chain f))%nat ->
+Lemma kind_tcp m0 f j c sp dp fl ow : wf_frame f = true -> base_ok m0 -> (j < length (frame_chain f))%nat ->
   lay f j = mk PTCP (enc_l4 (L4TCP sp dp fl ow)) [(cSrcPort, VI sp); (cDstPort, VI dp); (cTcpFlags, VI fl)] PNone false ->
   sp < 65536 -> dp < 65536 -> ow <= 10 ->
-  (1 <= c <= length (enc_l4 (L4TCP sp dp fl ow)))%nat -> cut_ok f (hdrs f j ++ firstn c (enc_l4 (L4TCP sp dp fl ow))).
+  (1 <= c <= length (enc_l4 (L4TCP sp dp fl ow)))%nat -> cut_ok m0 f (hdrs f j ++ firstn c (enc_l4 (L4TCP sp dp fl ow))).
 Proof.
-  intros Hwf Hj El Hs Hd Ho Hc.
+  intros Hwf Hbase Hj El Hs Hd Ho Hc.
   assert (Hh : lhdr (lay f j) = enc_l4 (L4TCP sp dp fl ow)) by (rewrite El; reflexivity).
   assert (Hlp : lp (lay f j) = PTCP) by (rewrite El; reflexivity).
   destruct (Nat.lt_ge_cases c 20) as [Hlt|Hge].
@@ -835,18 +874,18 @@ Proof.
   assert (Hcut : firstn c (enc_l4 (L4TCP sp dp fl ow)) = tcp20 sp dp fl ow ++ firstn (c - 20) (repeat 1 (N.to_nat (4 * ow)))).
   { rewrite enc_tcp_split. replace c with (length (tcp20 sp dp fl ow) + (c - 20))%nat at 1 by (rewrite tcp20_len; lia). apply firstn_app_len. }
   rewrite Hcut in *.
-  apply (case_step f j _ [(cSrcPort, VI sp); (cDstPort, VI dp); (cTcpFlags, VI fl)] (20 + 4 * ow) PNone false); try assumption.
+  apply (case_step m0 f j _ [(cSrcPort, VI sp); (cDstPort, VI dp); (cTcpFlags, VI fl)] (20 + 4 * ow) PNone false); try assumption.
   - rewrite Hlp. split; [keys|]. split; [discriminate|]. split; [lia|]. intros base m _. apply tcp_step; assumption.
   - discriminate.
   - left; reflexivity.
   - rewrite El. cbn [mk lasg]. apply sub_asg_refl; [apply nodupb_ok; reflexivity|repeat constructor].
 Qed.
 
-Lemma kind_icmp f j c (six : bool) t c0 : wf_frame f = true -> (j < length (frame_chain f))%nat ->
+Lemma kind_icmp m0 f j c (six : bool) t c0 : wf_frame f = true -> base_ok m0 -> (j < length (frame_chain f))%nat ->
   lay f j = mk (if six then PICMPv6 else PICMP) ([t; c0] ++ enc_be 2 0 ++ enc_be 4 1) [(cIcmpType, VI t); (cIcmpCode, VI c0)] PNone false ->
-  (1 <= c <= 8)%nat -> cut_ok f (hdrs f j ++ firstn c ([t; c0] ++ enc_be 2 0 ++ enc_be 4 1)).
+  (1 <= c <= 8)%nat -> cut_ok m0 f (hdrs f j ++ firstn c ([t; c0] ++ enc_be 2 0 ++ enc_be 4 1)).
 Proof.
-  intros Hwf Hj El Hc.
+  intros Hwf Hbase Hj El Hc.
   assert (Hh : lhdr (lay f j) = [t; c0] ++ enc_be 2 0 ++ enc_be 4 1) by (rewrite El; reflexivity).
   assert (Hlp : lp (lay f j) = if six then PICMPv6 else PICMP) by (rewrite El; reflexivity).
   destruct (Nat.lt_ge_cases c 2) as [Hlt|Hge].
@@ -854,7 +893,7 @@ Proof.
   assert (Hct : contracts (firstn j (frame_chain f)) (firstn c ([t; c0] ++ enc_be 2 0 ++ enc_be 4 1))).
   { rewrite <- Hh. apply frame_prefix_contracts; try assumption; [lia|]. rewrite Hh. discriminate. }
   destruct c as [|[|c']]; try lia. cbn [app firstn] in *.
-  apply (case_step f j _ [(cIcmpType, VI t); (cIcmpCode, VI c0)] 8 PNone false); try assumption.
+  apply (case_step m0 f j _ [(cIcmpType, VI t); (cIcmpCode, VI c0)] 8 PNone false); try assumption.
   - rewrite Hlp. split; [keys|]. split; [destruct six; discriminate|]. split; [lia|]. intros base m _. apply icmp_step.
   - discriminate.
   - left; reflexivity.
@@ -882,21 +921,23 @@ Proof.
   - destruct six; discriminate.
 Qed.
 
-(* THE THEOREM: a capture of ANY length 0..len(frame) of ANY well-formed frame is dissected without error into a
-   message in which every column other than the ethertype, the VLAN id and the two layer lists carries the value the
-   complete frame gives it, or is unset, or -- MPLS labels, MPLS TTLs, SRv6 segments of a stack / list the capture
-   cuts through -- is a prefix of the complete frame's list. *)
-Theorem any_cut f n : wf_frame f = true -> cut_ok f (firstn n (encode_frame f)).
+(* THE THEOREM: a capture of ANY length 0..len(frame) of ANY well-formed frame, dissected into ANY base message that has
+   no layers and no segment list yet (the empty message: ParsePacket on its own; the message carrying an sFlow sample's
+   own fields: the sFlow producer), is dissected without error into a message in which every column other than the
+   ethertype, the VLAN id and the two layer lists carries the value the complete frame gives it, or is as in the base
+   message (unset, for the empty one), or -- MPLS labels, MPLS TTLs, SRv6 segments of a stack / list the capture cuts
+   through -- is a prefix of the complete frame's list. *)
+Theorem any_cut_on m0 f n : wf_frame f = true -> base_ok m0 -> cut_ok m0 f (firstn n (encode_frame f)).
 Proof.
-  intros Hwf.
+  intros Hwf Hbase.
   pose proof (frame_kinds f Hwf) as Hkinds. rewrite Forall_forall in Hkinds.
   destruct (frame_chained f Hwf) as [Hch Hlast].
   set (H := concat (map lhdr (frame_chain f))).
   destruct (Nat.eq_dec n 0) as [->|Hn0].
   { (* nothing captured *)
     cbn [firstn].
-    destruct (cut_stop [] [] false empty_msg [] I I eq_refl) as (m & Hp & Hinv); [right; cbn; lia|].
-    exists m. split; [exact Hp|]. split; [apply (stop_columns f 0 false empty_msg [] m Hwf eq_refl Hinv)|apply (stop_layers f 0 false empty_msg [] m Hwf eq_refl Hinv)]. }
+    destruct (cut_stop m0 [] [] false m0 [] Hbase I I eq_refl) as (m & Hp & Hinv); [right; cbn; lia|].
+    exists m. split; [exact Hp|]. split; [apply (stop_columns m0 f 0 false m0 [] m Hwf Hbase eq_refl Hinv)|apply (stop_layers m0 f 0 false m0 [] m Hwf eq_refl Hinv)]. }
   destruct (Nat.le_gt_cases n (length H)) as [Hle|Hgt].
   - (* the capture ends inside or at the end of header j *)
     destruct (cut_position (frame_chain f) n ltac:(fold H; lia)) as (j & c & Hj & Hc & En).
@@ -908,10 +949,10 @@ Proof.
     + destruct (Nat.eq_dec c (length (lhdr l))) as [->|Hne].
       * rewrite firstn_full by lia. rewrite <- El. apply kind_full; try assumption; rewrite El; assumption.
       * rewrite <- El. apply case_short; try assumption; rewrite El; lia.
-    + cbn [mpls_layer mk lhdr] in *. apply (kind_mpls f j c ls e); assumption.
-    + cbn [srh_layer mk lhdr] in *. apply (kind_srh f j c next s); assumption.
-    + cbn [mk lhdr] in *. apply (kind_tcp f j c sp dp fl ow); assumption.
-    + cbn [mk lhdr] in *. apply (kind_icmp f j c six t c0); try assumption; cbn [app length] in Hc; rewrite ?enc_be_len in Hc; cbn in Hc; lia.
+    + cbn [mpls_layer mk lhdr] in *. apply (kind_mpls m0 f j c ls e); assumption.
+    + cbn [srh_layer mk lhdr] in *. apply (kind_srh m0 f j c next s); assumption.
+    + cbn [mk lhdr] in *. apply (kind_tcp m0 f j c sp dp fl ow); assumption.
+    + cbn [mk lhdr] in *. apply (kind_icmp m0 f j c six t c0); try assumption; cbn [app length] in Hc; rewrite ?enc_be_len in Hc; cbn in Hc; lia.
   - (* the capture holds every header and some of what follows them *)
     rewrite encode_frame_chain. fold H.
     replace n with (length H + (n - length H))%nat by lia. rewrite firstn_app_len.
@@ -927,4 +968,18 @@ Proof.
     + intros Hm. apply (mpls_not_last (lay f j)); [apply Hkinds; apply nth_In; exact Hj|exact Hm|exact Hnx].
     + left. exact Hnx.
     + right. exact Hnx.
+Qed.
+
+(* ParsePacket on its own: the base message is the empty one, the reference is ref_frame f *)
+Lemma framed_empty f : framed empty_msg f = ref_frame f.
+Proof. rewrite ref_frame_pre. reflexivity. Qed.
+
+Theorem any_cut f n : wf_frame f = true ->
+  exists m, parse_packet empty_pcfg empty_msg (firstn n (encode_frame f)) = Ok m /\
+    (forall k, k <> cEtype -> k <> cVlanId -> k <> cLayerStack -> k <> cLayerSize ->
+       col_ok None (alookup (cols m) k) (alookup (cols (ref_frame f)) k)) /\ layers_ok m f.
+Proof.
+  intros Hwf. destruct (any_cut_on empty_msg f n Hwf base_empty) as (m & Hp & Hc & Hl).
+  exists m. split; [exact Hp|]. split; [|exact Hl]. intros k K1 K2 K3 K4.
+  specialize (Hc k K1 K2 K3 K4). rewrite framed_empty in Hc. exact Hc.
 Qed.
